@@ -92,6 +92,13 @@ def catalogue(da, a, b, t, sq, v, ds, tmpdir):
         'align': lambda: da.align([a, b]), 'align-sort': lambda: da.align([a, b], sort=True), 'align-inner-sort': lambda: da.align([a, b], join='inner', sort=True),
         'align-sort-single-dim': lambda: da.align([a, a.mean(axis=y)], sort=True), 'align-axis': lambda: da.align((b, a), axis=y, sort=True),
         'align-three': lambda: da.align([a, b, t], sort=True), 'align-self': lambda: da.align([a, a], sort=True),
+        # a partner that is empty along a shared dimension: the union may be the other input's own Axis object
+        'align-sort-empty-partner': lambda: da.align([a, a.take(np.zeros(len(ya), dtype=bool), axis=y)], sort=True),
+        'align-sort-empty-partner-first': lambda: da.align([a.take(np.zeros(len(ya), dtype=bool), axis=y), a], sort=True),
+        'align-sort-empty-partner-axis': lambda: da.align([b, a.take(np.zeros(len(ya), dtype=bool), axis=y), a], sort=True, axis=y),
+        'concat-align-sort-empty-partner': lambda: da.concatenate([a, a.take(np.zeros(len(ya), dtype=bool), axis=y)], axis=x, align=True, sort=True),
+        'stack-align-sort-empty-partner': lambda: da.stack([a, a.take(np.zeros(len(ya), dtype=bool), axis=y)], axis='s', align=True, sort=True),
+        'add-empty-partner': lambda: a + a.take(np.zeros(len(ya), dtype=bool), axis=y),
         'sort_axis': lambda: a.sort_axis(axis=y), 'sort_axis-key': lambda: a.sort_axis(axis=y, key=lambda q: -q), 'sort_axis-default': lambda: a.sort_axis(),
         'interp': lambda: a.interp_axis([ylo, (ylo + yhi) / 2, yhi + 1], axis=y), 'interp_like': lambda: a.interp_like(b),
         'stack': lambda: da.stack([a, a * 2], axis='s'), 'stack-dict': lambda: da.stack({'p': a, 'q': a}, axis='s'),
